@@ -120,12 +120,15 @@ func init() {
 		Rule: "one case = one stress run: G in {2,4,16,64} goroutines x N calls (1200-5000 calls per run) over 1-8 loggers (roots and children, inherit flag on/off) in JSON/logfmt/colored at the same time, GOMAXPROCS in {1,2,4,16}, " +
 			"mutex-protected recording writers with optional Gosched / sleep inside Write; every call carries its id in the message and in every attribute, plus a shared unsorted Group at the call site, a shared Group at logger level, a shared error value, " +
 			"a marshaller spy that records which pooled PrintCtx formatted it, and occasional 150-350 extra attributes (jump above the pooled size hint). Runs are executed twice: without and with the Go race detector (GORACE halt_on_error=0, reports parsed from the log files, deduplicated by the logg frames of the two stacks). " +
+			"side: the same oracles for 600-1500 calls next to (a) another logger whose destination keeps reporting errors, with caller information switched on, (b) a log/slog.Logger derived with .With(...) whose records mostly have no attributes of their own, (c) a process that changed its working directory and issues half of its records through reflection (caller frame inside the Go installation). " +
 			"Oracles: any DATA RACE report with a logg frame; every payload decodes to the complete record of exactly one call; multiset of delivered ids == multiset of issued ids per logger. non-trivial = run with all records decoded; distinct = by run configuration",
 		Assumptions: []string{"the Go race detector reports only races on executions it sees (happens-before based, no false positives)", "concurrent reconfiguration of a logger is outside the claim and not generated"},
-		Floors:      map[string]int64{"records_decoded": 5000, "max:max_writes_in_flight": 2, "goroutine_switches_in_arrival_order": 100, "print_contexts_used_by_several_goroutines": 1},
+		Floors:      map[string]int64{"records_decoded": 5000, "max:max_writes_in_flight": 2, "goroutine_switches_in_arrival_order": 100, "print_contexts_used_by_several_goroutines": 1, "side_records_decoded": 3000},
 		Jobs: func(tier string, seed int64) []Job {
 			js := chunk("stress", "prod", pick(tier, 32, 1000), pick(tier, 2, 32), Job{Timeout: 30 * time.Minute})
 			js = append(js, chunk("stress", "prod", pick(tier, 16, 600), pick(tier, 2, 20), Job{Race: true, Args: []string{"-x", "race=1"}, Timeout: 40 * time.Minute})...)
+			js = append(js, chunk("side", "prod", pick(tier, 12, 600), pick(tier, 3, 30), Job{Timeout: 30 * time.Minute})...)
+			js = append(js, chunk("side", "prod", pick(tier, 12, 450), pick(tier, 3, 30), Job{Race: true, Args: []string{"-x", "race=1"}, Timeout: 40 * time.Minute})...)
 			return js
 		},
 	})
